@@ -456,7 +456,54 @@ class _NullCtx:
         return False
 
 
-KINDS = {"replay": run_replay, "resume_replay": run_resume_replay, "seq": run_seq, "repro": run_repro, "iterpos": run_iterpos, "midrun": run_midrun}
+def run_dirtydir(case):
+    """The same run into a clean output directory and into one that already holds files of an earlier run with the same label (complete
+    checkpoints, temporary siblings left behind by a crash): same histories, same random stream position afterwards."""
+    from mc.pipeline import Probe, digest, snap
+    from mc.refmodels.fs import MemFS
+
+    res = Res()
+    cfg = dict(case["cfg"], save_every=case["save_every"], output_dir="/memfs/dd", output_label="ps")
+    out = {}
+    for kind in ("clean", "stale-tmp", "stale-checkpoints", "both"):
+        fs = MemFS()
+        fs.mkdir("/memfs/dd", parents=True, exist_ok=True)
+        for k in range(0, 40):
+            if kind in ("stale-tmp", "both"):
+                for suffix in (".tmp", ".state.tmp", ".state.part"):
+                    f = fs.open(f"/memfs/dd/ps_{k}{suffix}", "wb")
+                    f.write(b"left behind by a crashed run")
+                    f.close()
+                f = fs.open("/memfs/dd/ps_final.state.tmp", "wb")
+                f.write(b"x")
+                f.close()
+            if kind in ("stale-checkpoints", "both"):
+                f = fs.open(f"/memfs/dd/ps_{k}.state", "wb")
+                f.write(b"not a checkpoint of this run")
+                f.close()
+        p = Probe(cfg, base=case["base"], fs=fs)
+        p.run()
+        res.evals += 1
+        res.trans += p.events
+        if p.exc is not None:
+            out[kind] = ("raised", repr(p.exc))
+        else:
+            out[kind] = ("ok", digest(snap(p.state)["history"]), p.tape.position(), p.iters)
+    res.states += 1
+    res.traces += 1
+    res.outcome(("dirtydir", tuple(sorted((k, repr(v)) for k, v in cfg.items()))), nontrivial=True)
+    if out["clean"][0] != "ok":
+        res.bump("aborted_runs")
+        return res
+    for kind in ("stale-tmp", "stale-checkpoints", "both"):
+        if out[kind] != out["clean"]:
+            what = f"raised {out[kind][1]}" if out[kind][0] == "raised" else ("different history" if out[kind][1] != out["clean"][1] else "different stream position afterwards")
+            res.violate(f"dirty-output-dir:{kind}", f"run(save_every={case['save_every']}) into a directory that already holds {kind} of an earlier run with the same label: {what} "
+                        f"compared with the same run into a clean directory (cfg={case['cfg']})", dict(case))
+    return res
+
+
+KINDS = {"dirtydir": run_dirtydir, "replay": run_replay, "resume_replay": run_resume_replay, "seq": run_seq, "repro": run_repro, "iterpos": run_iterpos, "midrun": run_midrun}
 
 FACTORS = [
     ("sample", ["tpcn", "rwm"]),
@@ -498,4 +545,7 @@ def plan(ctx):
                 rp.append({"kind": "replay", "cfg": scfg, "base": ctx.seed, "patterns": [sh, 2]})
             rp.append({"kind": "resume_replay", "cfg": dict(n_particles=8, d=2, ess_ratio=3.0, n_total=32, clustering=cl, random_state=rs_)})
     ctx.explore("no-replayed-innovations", rp)
+    dd = [{"kind": "dirtydir", "cfg": dict(n_particles=16, n_total=64, clustering=cl, sample=k, random_state=rs_), "save_every": sv, "base": ctx.seed}
+          for cl in (False, True) for k in ("tpcn", "rwm") for rs_ in (5, None) for sv in (1, 3)]
+    ctx.explore("pre-populated-output-directory", dd)
     ctx.bounds.update({"repro_configs": len(rows), "random_states": [0, 1, 12345]})
